@@ -259,13 +259,11 @@ theorem isLinear_degree {e : Expr} (h : isLinear e = true) : ∃ d, degree e = s
   · rename_i d hd; exact ⟨d, hd, by simpa using h⟩
   · simp at h
 
-theorem coversAll_total {V : List String} {vv : VVar} (h : vv.vars.isEmpty = false) :
+theorem coversAll_total {V : List String} {vv : VVar} (_h : vv.vars.isEmpty = false) :
     ∃ t, coversAll V vv = .ok t := by
   unfold coversAll
   split
-  · split
-    · rename_i hv; simp [hv] at h
-    · exact ⟨_, rfl⟩
+  · exact ⟨_, rfl⟩
   · exact ⟨_, rfl⟩
 
 theorem extractConstantTerm_total {e : Expr} (hlin : isLinear e = true) (hw : extractWF e = true) :
